@@ -623,6 +623,8 @@ func zzH01_vm_stack() {
 		// float division of symbolic operands is out of the solver's reach; the point here is
 		// operand order and stack depth, for which concrete operands suffice
 		av, bv = 7, 2
+	case "SLASHSLASH", "PERCENT":
+		bv = 3 // symbolic dividend, concrete divisor (symbolic/symbolic division: see C10)
 	}
 	e := &zzVMEnv{a: MakeInt64(av), b: MakeInt64(bv), av: av, bv: bv}
 	e.list = NewList([]Value{MakeInt(10), MakeInt(11), MakeInt(12)})
